@@ -34,6 +34,7 @@ EXPLANATION = (
   " (ITEM-source) an object built once per item of an inner loop is filled only with values that derive from that item or do not vary with the loops, never with a value of the enclosing container standing where the item's own belongs;"
   ' (NUL-known) no local is dereferenced at a point where a dominating test has established that it is None and nothing has assigned it since (the test and the dereference would contradict each other);'
   ' (LOOP-break) no loop over the items of a collection is left by a branch that does nothing but `break` on a test about the item (end-of-input sentinels, flags set in the loop body and searches whose variable is read afterwards excepted): an item that is to be skipped does not end the processing of the items after it;'
+  + "  (SHAPE / FIN-channel, shared with C17) find() of every code enumeration, interpreted on the code values of its own members, returns the first member listing the value, and get_channel() gives channel 1 / 2 for the member's first / second value and no channel for the field-2 forms - the decoder skips a word exactly when that is not channel 1;"
 )
 RULE_TEXT = "per code class, per control code, per decoder-state call, per style property x caption style"
 UNDECIDED = ["everything the statement says about *what is displayed when*: pop-on flip, roll-up window depth, paint-on accumulation, cursor / backspace arithmetic, "
@@ -352,6 +353,10 @@ def check_attribute_sets(ctx):
 
 def run(ctx):
   ix = ctx.ix
+  # the code tables the protocol decoder relies on: find() / get_channel() of every code enumeration (as in C17)
+  from . import c17 as _c17
+  _c17.check_shapes(ctx)
+  _c17.check_fin(ctx)
   check_dispatch(ctx)
   check_channel_and_frames(ctx)
   check_styles_follow(ctx)
